@@ -104,6 +104,13 @@ def discharge_all(run, obs, timeout_ms=20000, procs=None, on_sat=None):
                 except Exception as e:
                     import traceback
                     replay = {"replay_error": f"{type(e).__name__}: {e}", "tb": traceback.format_exc()[-800:]}
+            uninterp = ("(band " in o.smt2) or ("(bor " in o.smt2)
+            if uninterp and not confirmed:
+                # the counter-model may rest on the UNINTERPRETED bit operators (& and | are not axiomatised): without a
+                # replay that confirms it on the real code it proves nothing -> undecided, never a violation
+                run.obligations[-1].status = "undecided"
+                run.obligations[-1].detail = "counter-model uses uninterpreted bitwise operators and was not confirmed by replay"
+                out.append((o, "unknown", detail)); continue
             run.violation(name, f"obligation {o.clause} of {o.fn} refuted (source line {o.lineno})",
                           {"function": o.fn, "clause": o.clause, "path_label": o.label, "source_line": o.lineno,
                            "solver": "z3: sat", "counter_model": detail, "native_replay": replay},
